@@ -346,11 +346,9 @@ def gen_driver(m, modname, header_text, ninst=2, header_name=None, prefix_funcs=
     for e, (name, fidx) in enumerate(fexports):
         ps, rs = m.func_type(fidx)
         if _SAFE.match(name):
-            sym = '%s_%s' % (modname, name.decode())
-        elif e < len(hnames) and len(hnames) == len(fexports):
-            sym = hnames[e]
+            sym = '%s_%s' % (modname, name.decode())     # the documented '<module>_<name>' symbol
         else:
-            sym = None
+            sym = None                                   # exotic name: looked up by its original string in FuncExports
         args = ''.join(',' + {I32: '(U32)a[%d]', I64: 'a[%d]', F32: 'vf_f32((U32)a[%d])', F64: 'vf_f64(a[%d])'}[p] % i
                        for i, p in enumerate(ps))
         if sym is None:
